@@ -46,8 +46,9 @@ def interleave_worker(args):
                     out['differ'].append(f'outcome kind {x[0]} vs {y[0]}')
         out['stmts'] = M1.stats['stmts'] + M2.stats['stmts']
         out['queries'] = M1.nq + M2.nq
-    except mirx.Unsupported as e:
-        out['error'] = 'unsupported: ' + str(e)
+    except Exception as e:
+        import traceback
+        out['error'] = ('unsupported: ' + str(e)) if isinstance(e, mirx.Unsupported) else ('internal error in the check machinery: ' + repr(e) + ' | ' + traceback.format_exc()[-700:])
     out['wall'] = round(time.time() - t0, 1)
     return out
 
